@@ -1,0 +1,20 @@
+//go:build verif
+
+// Contracts for package entry, checked by /verif (govc). Comment-only: nothing here is compiled into normal builds.
+package entry
+
+// ---- shared vocabulary ----
+//@ define validClock(c iface.IPFSLogLamportClock) = typeis(c, "*LamportClock") && ref(c) != nil
+//@ define validEntry(e iface.IPFSLogEntry) = typeis(e, "*Entry") && ref(e) != nil && e.Clock != nil
+//@ define clockOrder(t1 int, id1 bytes, t2 int, id2 bytes) = ite(t1 < t2, 0 - 1, ite(t1 > t2, 1, bytescmp(id1, id2)))
+//@ define etime(e iface.IPFSLogEntry) = e.Clock.Time
+//@ define ecid(e iface.IPFSLogEntry) = bytes(e.Clock.ID)
+//@ define ehash(e iface.IPFSLogEntry) = str(e.Hash)
+
+// ---- lamportclock.go ----
+//@ func (*LamportClock).Compare
+//@   requires l != nil && validClock(b)
+//@   pure
+//@   ensures [clock-compare-is-lexicographic] sign(result) == clockOrder(l.Time, bytes(l.ID), b.(*LamportClock).Time, bytes(b.(*LamportClock).ID))
+//@   observe l.Time, b.(*LamportClock).Time
+//@   replay clockcompare
